@@ -1,5 +1,5 @@
 """C03 — no UB, crash or panic through the safe API (DESIGN §4 C03)."""
-from ..engines import ranges, dispatch_rules, validators, index_rules, witness
+from ..engines import ranges, dispatch_rules, validators, index_rules, witness, loadwidth
 from ..progs import programs
 
 
@@ -44,7 +44,9 @@ def run(rep, tier):
     for cfg, prog in programs(cfgs):
         rep.set_cfg(cfg)
         if cfg == "wasm":
-            continue   # 32-bit usize: informational only (DESIGN Appendix B, scope decisions)
+            # 32-bit usize: arithmetic is informational only (DESIGN Appendix B); kernels are checked
+            loadwidth.guard_adequacy(rep, prog, "C03.loadwidth", loadwidth.FLOOR.get(cfg, 50))
+            continue
         n = arith(rep, prog, "C03.arith")
         rep.floor("C03.arith", "arithmetic asserts in scope", n, 100)
         validators.crop_f64(rep, prog, "C03.crop-validate")
@@ -56,3 +58,5 @@ def run(rep, tier):
         index_rules.unwraps(rep, prog, "C03.unwrap")
         dispatch_rules.t_precision(rep, prog, "C03.precision", report_empty=False)
         dispatch_rules.t_feature(rep, prog, "C03.feature")
+        if cfg != "x86-rayon":
+            loadwidth.guard_adequacy(rep, prog, "C03.loadwidth", loadwidth.FLOOR.get(cfg, 50))
